@@ -164,12 +164,15 @@ def master(tier, seed):
         "model_probe_calls": stats.get("probe_calls", 0),
         "faults_swallowed": stats.get("faults_swallowed", 0),
         "distinct_crash_points_fired": len(agg["crash_sites"]),
-        "simulated_time": "not applicable: the system has no clock, timer or timeout; logical steps are reported instead",
+        "simulated_time": "%d simulated seconds of idle periods (time.time / monotonic / perf_counter are a simulated clock moved only by reads "
+                          "and by generated idle operations; the pinned tree reads no clock, so this matters only for changes that add one)"
+                          % stats.get("sim_idle_seconds", 0),
         "real_components": ["pyab_experiment (lexer, LR parser, pydantic AST, code generator, compile/exec)", "pydantic", "hashlib"],
         "stubbed_components": ["sys.stdout / sys.stderr (simulator stream that can fail writes or be None)",
                                "global random (re-seeded identically before the real and the model call)",
                                "threading.Lock / RLock (a lock left held shows as 'operation never returns' instead of a hang)",
-                               "the run's disk: private empty HOME / TMPDIR per forked run"],
+                               "the run's disk: private empty HOME / TMPDIR per forked run",
+                               "the `time` module's clocks (simulated wall + monotonic clock per run)"],
         "workers": common.n_workers(),
     }
     common.write_evidence(PROP, tier, seed, cov, wall, len(paths),
